@@ -210,8 +210,29 @@ var (
 
 func c09cname(i int) string { return c09cnames[i] }
 func c09sname(i int) string { return c09snames[i] }
-func c09addr(i int) string  { return c09eps[i].ip }
-func c09port(i int) int     { return c09eps[i].port }
+
+// Address families: the two address strings of the identity grid. Addr is a free string for
+// the loaders, so every spelling a file may contain is a backend address; distinct strings are
+// distinct backends (no equivalence of spellings is judged).
+var c09famAddrs = [][2]string{
+	{"10.0.0.1", "10.0.0.2"},                 // IPv4
+	{"fd00::1", "::1"},                       // IPv6 literals
+	{"fd00::1", "fd00:0::1"},                 // two spellings of one IPv6 address
+	{"backend-a.example", "::ffff:10.0.0.1"}, // host name, IPv4-mapped IPv6
+}
+
+var c09fam int
+
+// c09setFamily installs the address strings of family f into the identity grid.
+func c09setFamily(f int) {
+	c09fam = f
+	a := c09famAddrs[f]
+	c09eps[0].ip, c09eps[2].ip = a[0], a[0]
+	c09eps[1].ip, c09eps[3].ip = a[1], a[1]
+}
+
+func c09addr(i int) string { return c09eps[i].ip }
+func c09port(i int) int    { return c09eps[i].port }
 func c09addrInfo(i int) string {
 	return c09eps[i].ip + ":" + strconv.Itoa(c09eps[i].port)
 }
@@ -237,7 +258,7 @@ type c09conf struct {
 var c09confCache = map[string]*c09conf{}
 
 func (c c09cfg) cached() *c09conf {
-	k := string(c.appendKey(nil))
+	k := string(c.appendKey([]byte{byte('0' + c09fam)}))
 	if v, ok := c09confCache[k]; ok {
 		return v
 	}
@@ -1157,16 +1178,17 @@ type c09bfsCtx struct {
 	checked map[string]bool
 	force   bool // replay: always own
 	runs    int64
+	fam     int
 }
 
 func (x *c09bfsCtx) id(hist []int) string {
-	return fmt.Sprintf("bfs|root=%d|alpha=%s|ops=%s", x.rootIdx, x.alpha, vk.IntsString(hist))
+	return fmt.Sprintf("bfs|fam=%d|root=%d|alpha=%s|ops=%s", x.fam, x.rootIdx, x.alpha, vk.IntsString(hist))
 }
 
 // run replays hist on a fresh world. Only the owning shard judges (and counts) the final state.
 func (x *c09bfsCtx) run(hist []int) (string, bool) {
 	r := x.r
-	ph := 17 + x.rootIdx
+	ph := 17 + x.rootIdx + 5*x.fam
 	if len(hist) > 0 {
 		for _, o := range hist[:len(hist)-1] {
 			ph = (ph*131 + o + 1) & 0x3fffffff
@@ -1286,43 +1308,59 @@ func (x *c09bfsCtx) run(hist []int) (string, bool) {
 	return key, true
 }
 
+func c09famRoots(fams, roots []int) (out [][2]int) {
+	for _, f := range fams {
+		for _, ri := range roots {
+			out = append(out, [2]int{f, ri})
+		}
+	}
+	return
+}
+
 func c09partA(r *vk.Run) {
 	roots := c09roots()
 	type pass struct {
 		alpha string
 		depth int
 		roots []int
+		fams  []int
 	}
 	var passes []pass
 	if r.Thorough() {
-		passes = []pass{{"full", 3, []int{2, 1, 0}}, {"full", 4, []int{2}}, {"core", 4, []int{1, 0}}}
+		passes = []pass{{"full", 3, []int{2, 1, 0}, []int{0}}, {"full", 4, []int{2}, []int{0}}, {"core", 4, []int{1, 0}, []int{0}},
+			{"full", 2, []int{2, 1, 0}, []int{1, 2, 3}}, {"lean", 3, []int{1}, []int{1, 2, 3}}, {"core", 3, []int{0}, []int{1, 2, 3}}}
 	} else {
-		passes = []pass{{"full", 2, []int{2, 1, 0}}, {"full", 3, []int{2}}, {"lean", 3, []int{1, 0}}}
+		passes = []pass{{"full", 2, []int{2, 1, 0}, []int{0}}, {"full", 3, []int{2}, []int{0}}, {"lean", 3, []int{1, 0}, []int{0}},
+			{"lean", 2, []int{1, 0}, []int{1, 2, 3}}, {"core", 3, []int{1}, []int{1, 2, 3}}}
 	}
 	if r.Replaying() {
 		rc := r.ReplayCase()
 		if !strings.HasPrefix(rc, "bfs|") {
 			return
 		}
-		var ri int
+		var ri, fam int
 		var alpha, ops string
 		parts := strings.Split(rc, "|")
-		if len(parts) != 4 {
+		if len(parts) != 5 {
 			return
 		}
-		ri, _ = strconv.Atoi(strings.TrimPrefix(parts[1], "root="))
-		alpha = strings.TrimPrefix(parts[2], "alpha=")
-		ops = strings.TrimPrefix(parts[3], "ops=")
+		fam, _ = strconv.Atoi(strings.TrimPrefix(parts[1], "fam="))
+		ri, _ = strconv.Atoi(strings.TrimPrefix(parts[2], "root="))
+		alpha = strings.TrimPrefix(parts[3], "alpha=")
+		ops = strings.TrimPrefix(parts[4], "ops=")
 		hist := vk.ParseInts(ops)
-		x := &c09bfsCtx{r: r, root: roots[ri], rootIdx: ri, alpha: alpha, ops: c09ops(alpha), depth: len(hist), checked: map[string]bool{}, force: true}
+		c09setFamily(fam)
+		x := &c09bfsCtx{r: r, root: roots[ri], rootIdx: ri, alpha: alpha, ops: c09ops(alpha), depth: len(hist), checked: map[string]bool{}, force: true, fam: fam}
 		x.run(hist)
 		return
 	}
 	for _, ps := range passes {
 		ops := c09ops(ps.alpha)
-		for _, ri := range ps.roots {
-			name := fmt.Sprintf("%s@%d/%s", ps.alpha, ps.depth, roots[ri].name)
-			x := &c09bfsCtx{r: r, root: roots[ri], rootIdx: ri, alpha: ps.alpha, ops: ops, depth: ps.depth, checked: map[string]bool{}}
+		for _, fr := range c09famRoots(ps.fams, ps.roots) {
+			fam, ri := fr[0], fr[1]
+			c09setFamily(fam)
+			name := fmt.Sprintf("fam%d/%s@%d/%s", fam, ps.alpha, ps.depth, roots[ri].name)
+			x := &c09bfsCtx{r: r, root: roots[ri], rootIdx: ri, alpha: ps.alpha, ops: ops, depth: ps.depth, checked: map[string]bool{}, fam: fam}
 			st, tr, d, closed := vk.BFS(len(ops), ps.depth, x.run, func() bool { return r.Expired("bfs " + name) })
 			r.Add("sum_replays_executed", x.runs)
 			si, _ := r.Shard()
@@ -1344,6 +1382,7 @@ type c09scn struct {
 	balC    int
 	balK    int
 	fail    bool // the request thread reports a failure (OnFail) instead of success
+	fam     int  // address family of the identity grid
 }
 
 // Every Part B configuration lists at most one cluster in gslb: BalTableReload ranges over Go
@@ -1403,6 +1442,7 @@ func (l *c09e1log) balanced(b *backend.BfeBackend) { l.got, l.gotOK = b, true }
 
 func c09e1run(scn c09scn, ch *vk.Chooser) (out vsched.Outcome, w *c09world, l *c09e1log) {
 	l = &c09e1log{}
+	c09setFamily(scn.fam)
 	w, perr := c09newWorld(c09e1init(), true, func(sig, detail string) { l.sigs = append(l.sigs, sig+" :: "+detail) })
 	if perr != "" {
 		panic("c09: e1 init failed: " + perr)
@@ -1515,13 +1555,13 @@ func c09e1check(r *vk.Run, scn c09scn, id string, out vsched.Outcome, w *c09worl
 				continue
 			}
 			for _, b := range w.cfg.cl[ci].subs[si].bes {
-				want[c09cname(ci)+"/"+c09sname(si)+"/"+c09addrInfo(b.addr)] = true
+				want[c09cname(ci)+"/"+c09sname(si)+"/e"+strconv.Itoa(b.addr)] = true
 			}
 		}
 	}
 	have := map[string]bool{}
 	c09walk(w.t, func(cn string, s bal_gslb.C09SubView, _ int, v bal_slb.C09BackendView) {
-		have[cn+"/"+s.Name+"/"+v.B.AddrInfo] = true
+		have[cn+"/"+s.Name+"/e"+strconv.Itoa(c09epIdx(v.B))] = true
 	})
 	if fmt.Sprint(c09sorted(want)) != fmt.Sprint(c09sorted(have)) {
 		w.violation("e1:final-state-not-serial", fmt.Sprintf("table holds %v, the last completed reload configured %v", c09sorted(have), c09sorted(want)))
@@ -1596,7 +1636,7 @@ func c09scenarios(thorough bool) []c09scn {
 		for _, i := range []int{0, 2, 3} {
 			monitor(i)
 		}
-		return scns
+		return c09withFamilies(scns)
 	}
 	n := len(cfgs)
 	for i := 0; i < n; i++ {
@@ -1610,6 +1650,15 @@ func c09scenarios(thorough bool) []c09scn {
 	}
 	for i := 0; i < n; i++ {
 		scns = append(scns, c09scn{name: "R(" + names[i] + ")|R(same)|A|B", reloads: []c09cfg{cfgs[i], cfgs[5]}, avail: true, balC: 0, balK: 0})
+	}
+	return c09withFamilies(scns)
+}
+
+// c09withFamilies spreads the address families over the scenarios (round robin).
+func c09withFamilies(scns []c09scn) []c09scn {
+	for i := range scns {
+		scns[i].fam = i % len(c09famAddrs)
+		scns[i].name += fmt.Sprintf("|fam%d", scns[i].fam)
 	}
 	return scns
 }
@@ -1694,7 +1743,7 @@ func TestVerifC09(t *testing.T) {
 	debug.SetGCPercent(400) // allocation-heavy replays under the race runtime; live heap is small
 	c09initKeys()
 	r.Set("duplicate_addresses_accepted_by_loader", c09dupAllowed)
-	r.Set("universe", "2 clusters x 2 sub-clusters (+GSLB_BLACKHOLE) x 4 backend identities on a 2x2 grid of address x port (10.0.0.1/10.0.0.2 x 80/81); names n<i>/n10 (rename), n0 twice (equal names), n20 (duplicate addr:port, only if the loader accepts it); backend weights 0..2; gslb weights absent/0/1")
+	r.Set("universe", "2 clusters x 2 sub-clusters (+GSLB_BLACKHOLE) x 4 backend identities on a 2x2 grid of address x port (two address strings x 80/81), address strings from 4 families: IPv4, IPv6 literals, two spellings of one IPv6 address, host name + IPv4-mapped IPv6; names n<i>/n10 (rename), n0 twice (equal names), n20 (duplicate addr:port, only if the loader accepts it); backend weights 0..2; gslb weights absent/0/1")
 	part := os.Getenv("C09_PART") // debugging aid only: "A" or "B" runs one part
 	t1 := time.Now()
 	if part != "A" {
